@@ -29,8 +29,12 @@ constants and, for `_symbol_map`, the isolated `_get_flag_symbols`) and CALLED o
 constants are recovered from the results and the recovered form is checked against further probes
 (so any behaviour-preserving rewrite is accepted and any rewrite that leaves the modelled form is a
 TranslateError).  The same is done, as before, for the statements that build the first `separator`
-of `combined_view`.  Nothing is imported from the analysed tree; a helper that is no longer pure
-(uses `self._machine_model`, a non-white-listed builtin, ...) fails loudly.
+of `combined_view`.  `_get_max_port_len` is read statically first (initial list, probe format,
+running maximum as `if` / conditional expression / `max`); only if its statements have another shape
+(e.g. comprehensions instead of loops) it is called in isolation with a stub machine model on probe
+kernels and must be  width[i] = max(m, max len('%.<d>f' % pressure[i]))  on all of them.
+Nothing is imported from the analysed tree; a helper that is no longer pure (uses
+`self._machine_model`, a non-white-listed builtin, ...) fails loudly.
 
 Still required (TranslateError otherwise = broken tie, the check then searches): the functions
 exist under their names; each format has the field structure the model implements (only numbers and
@@ -42,8 +46,26 @@ import os
 import re
 import sys
 
-sys.path.insert(0, os.path.dirname(os.path.abspath(__file__)))
-import astutil_G3 as A  # noqa: E402
+
+
+def _load_helpers():
+    """astutil_G3.py from this directory, without putting the directory on sys.path"""
+    import importlib.util
+
+    if "astutil_G3" not in sys.modules:
+        path = os.path.join(os.path.dirname(os.path.abspath(__file__)), "astutil_G3.py")
+        spec = importlib.util.spec_from_file_location("astutil_G3", path)
+        mod = importlib.util.module_from_spec(spec)
+        sys.modules["astutil_G3"] = mod
+        try:
+            spec.loader.exec_module(mod)
+        except BaseException:
+            del sys.modules["astutil_G3"]
+            raise
+    return sys.modules["astutil_G3"]
+
+
+A = _load_helpers()
 from translate import TranslateError, generator, parse, find_func, txt, HEADER  # noqa: E402
 
 FRONT = "osaca/frontend.py"
@@ -232,6 +254,47 @@ def max_port_len(f, C):
             f.fail("width update is not a running maximum")
     if updates != 1:
         f.fail("expected one running-maximum update of the width list, found %d" % updates)
+
+
+def max_port_len_probe(base, cls, flags, C, static_error):
+    """fall-back when the statements of `_get_max_port_len` are not of a shape read statically (e.g. the
+    loops became comprehensions): the method is pure apart from `self._machine_model.get_ports()`, so it
+    is called in isolation on probe kernels and must BE  width[i] = max(m, max over the kernel of
+    len('%.<d>f' % pressure[i]))  for the m and d it shows on two probes."""
+    import itertools
+
+    class _Model:
+        def get_ports(self):
+            return ["0", "1", "2DV"]
+
+    class _Form:
+        def __init__(self, pp):
+            self.port_pressure = pp
+
+    call = sandboxed(base, cls, "_get_max_port_len", flags, _machine_model=_Model())
+    why = "Frontend._get_max_port_len: not read statically (%s) and, called in isolation, " % static_error
+    r0 = call([])
+    if not (isinstance(r0, list) and len(r0) == 3 and len(set(r0)) == 1 and isinstance(r0[0], int)
+            and not isinstance(r0[0], bool) and 0 <= r0[0] < 13):
+        raise TranslateError(why + "an empty kernel does not give one small width per port: %r" % (r0,))
+    m = r0[0]
+    big = call([_Form([123456789012.0, 0.0, 0.0])])
+    if not (isinstance(big, list) and len(big) == 3 and isinstance(big[0], int) and 12 <= big[0] <= 40 and big[1:] == [m, m]):
+        raise TranslateError(why + "a wide value does not widen exactly its own column: %r" % (big,))
+    d = max(big[0] - 13, 0)
+    values = [0.0, 0.5, 9.999, 99.995, 2.675, 1234.5, 123456.789, 1e7 + 0.125, 5, 0.004, 99999.9996]
+    kernels = [[]]
+    for a, b, c in itertools.islice(itertools.permutations(values, 3), 0, None, 37):
+        kernels.append([_Form([a, b, c])])
+    for k in range(0, len(values) - 3):
+        kernels.append([_Form(list(values[k:k + 3])), _Form(list(values[k + 1:k + 4][::-1])), _Form([0.0, 0.0, 0.0])])
+    for kern in kernels:
+        want = [max([m] + [len("%.*f" % (d, fm.port_pressure[i])) for fm in kern]) for i in range(3)]
+        got = call(kern)
+        if got != want:
+            raise TranslateError(why + "it is not the running maximum of len('%%.%df' %% pressure) above %d: %r instead of %r"
+                                 % (d, m, got, want))
+    C["minPortLen"], C["portLenDecimals"] = m, d
 
 
 def port_pressure(f, C):
@@ -503,19 +566,26 @@ class _Flags:
 
 
 def sandboxed(base, cls, name, flags, **self_attrs):
+    """the method `name` compiled alone, as a callable of its arguments WITHOUT self (a stub `self`
+    is supplied unless the method is a staticmethod)"""
     fn = A.find_method(cls, name)
+    what = "%s.%s" % (cls.name, name)
     ns = _Flags()
     ns.__dict__.update(flags)
     f = A.sandbox_function(fn, base.at(cls=cls, fn=fn), {"INSTR_FLAGS": ns})
     stub = A.Stub(**A.class_constants(base, cls))
     stub.__dict__.update(self_attrs)
-    return f, stub
+    static = any(isinstance(d, ast.Name) and d.id == "staticmethod" for d in fn.decorator_list)
+
+    def call(*args):
+        return A.call_pure(what, f, *(args if static else (stub,) + args))
+
+    return call
 
 
 def missing_error(base, cls, flags, C):
     what = "Frontend._missing_instruction_error"
-    fn, stub = sandboxed(base, cls, "_missing_instruction_error", flags)
-    call = lambda a: A.call_pure(what, fn, stub, a)  # noqa: E731
+    call = sandboxed(base, cls, "_missing_instruction_error", flags)
     r1, r2, r5 = call(7), call(42), call(97531)
     if not all(isinstance(r, str) for r in (r1, r2, r5)) or "97531" not in r5:
         raise TranslateError("%s: result is not a text with the amount in it" % what)
@@ -536,8 +606,8 @@ def missing_error(base, cls, flags, C):
 
 def user_warnings(base, cls, flags, C):
     what = "Frontend._user_warnings_header"
-    fn, stub = sandboxed(base, cls, "_user_warnings_header", flags)
-    r = {(a, l): A.call_pure(what, fn, stub, a, l) for a in (False, True) for l in (False, True)}
+    fn = sandboxed(base, cls, "_user_warnings_header", flags)
+    r = {(a, l): fn(a, l) for a in (False, True) for l in (False, True)}
     if not all(isinstance(x, str) for x in r.values()) or r[False, False] != "\n":
         raise TranslateError("%s: without warnings the result is not one newline" % what)
     arch, length = r[True, False][:-1], r[False, True][:-1]
@@ -546,8 +616,8 @@ def user_warnings(base, cls, flags, C):
         raise TranslateError("%s: not of the form [arch text][length text]\\n" % what)
     C["archWarning"], C["lengthWarning"] = arch, length
     what = "Frontend._user_warnings_footer"
-    fn, stub = sandboxed(base, cls, "_user_warnings_footer", flags)
-    off, on = A.call_pure(what, fn, stub, False), A.call_pure(what, fn, stub, True)
+    fn = sandboxed(base, cls, "_user_warnings_footer", flags)
+    off, on = fn(False), fn(True)
     if off != "\n\n" or not isinstance(on, str) or len(on) < 3 or on[0] != "\n" or on[-1] != "\n":
         raise TranslateError("%s: not of the form \\n[lcd text]\\n" % what)
     C["lcdWarning"] = on[1:-1]
@@ -557,8 +627,8 @@ def flag_symbols(base, cls, flags, C):
     import itertools
 
     what = "Frontend._get_flag_symbols"
-    fn, stub = sandboxed(base, cls, "_get_flag_symbols", flags)
-    call = lambda fl: A.call_pure(what, fn, stub, list(fl))  # noqa: E731
+    fn = sandboxed(base, cls, "_get_flag_symbols", flags)
+    call = lambda fl: fn(list(fl))  # noqa: E731
     if call([]) != " ":
         raise TranslateError("%s: no flag does not give one blank" % what)
     vals = list(dict.fromkeys(flags.values()))
@@ -588,11 +658,7 @@ def flag_symbols(base, cls, flags, C):
 
 def symbol_map(base, cls, flags, C, flag_fn):
     what = "Frontend._symbol_map"
-    holder = []
-    fn, stub = sandboxed(base, cls, "_symbol_map", flags,
-                         _get_flag_symbols=lambda fl: A.call_pure("Frontend._get_flag_symbols", flag_fn, holder[0], fl))
-    holder.append(stub)
-    text = A.call_pure(what, fn, stub)
+    text = sandboxed(base, cls, "_symbol_map", flags, _get_flag_symbols=flag_fn)()
     if not isinstance(text, str) or not text.endswith("\n"):
         raise TranslateError("%s: result is not a sequence of lines" % what)
     by_sym = {chr(c): v for c, v in C["flagSymbols"]}
@@ -838,7 +904,10 @@ def gen_reportconsts():
     base = A.Scope(tf, ext={"INSTR_FLAGS": flags})
     C = {}
 
-    max_port_len(Fn(base, cls, "_get_max_port_len"), C)
+    try:
+        max_port_len(Fn(base, cls, "_get_max_port_len"), C)
+    except TranslateError as ex:
+        max_port_len_probe(base, cls, flags, C, ex)
     port_pressure(Fn(base, cls, "_get_port_pressure"), C)
     separator_list(Fn(base, cls, "_get_separator_list"), C)
     port_number_line(Fn(base, cls, "_get_port_number_line"), C)
